@@ -41,10 +41,15 @@ func fastBackoff() backoff.Config {
 // (short deadlines during a cold start) can run into the known wedges of C09; a shard that does not become
 // ready is discarded and the creation is retried twice before the engine gives up.
 func newShard(n int, mopts ...gorums.ManagerOption) (*shard, error) {
+	return newShardSrv(n, nil, mopts...)
+}
+
+// newShardSrv: a shard whose puppet servers are created with the given server options
+func newShardSrv(n int, sopts []gorums.ServerOption, mopts ...gorums.ManagerOption) (*shard, error) {
 	var err error
 	for attempt := 0; attempt < 3; attempt++ {
 		var s *shard
-		s, err = newShardOnce(n, mopts...)
+		s, err = newShardOnce(n, sopts, mopts...)
 		if err == nil {
 			return s, nil
 		}
@@ -55,8 +60,8 @@ func newShard(n int, mopts ...gorums.ManagerOption) (*shard, error) {
 	return nil, err
 }
 
-func newShardOnce(n int, mopts ...gorums.ManagerOption) (*shard, error) {
-	cl, err := puppet.NewCluster(n)
+func newShardOnce(n int, sopts []gorums.ServerOption, mopts ...gorums.ManagerOption) (*shard, error) {
+	cl, err := puppet.NewCluster(n, sopts...)
 	if err != nil {
 		return nil, err
 	}
@@ -384,7 +389,6 @@ func probe(node *dev.Node, timeout time.Duration) bool {
 		return false
 	}
 }
-
 
 // errVerifCause is the reason given to contexts made by newCancelCtx(true).
 var errVerifCause = errors.New("verif: cancelled with a cause")
